@@ -7,7 +7,9 @@ from common import rng
 FAMILY = "ladder"
 HARNESS = {"source": "x_ladder.c", "exclude_objs": ["loop"], "leak_clean": True}
 ENV = {"VERIF_LEAKCHECK": "1"}
-RULE = ("deser: every generated list shape without numbers x every fault position; packet: 0..9 names, each already normalised or respelled (13 fixed + random flag strings) x every fault position; "
+RULE = ("mapset / mapdel / tclone: tables and packets with 0..10 keys sharing a uthash bucket (first bucket expansion at the 10th) "
+        "and a table of 144 ordinary keys (first natural expansion), key new / present / present in another spelling, value "
+        "NULL or of 4 shapes, every fault position; deser: every generated list shape without numbers x every fault position; packet: 0..9 names, each already normalised or respelled (13 fixed + random flag strings) x every fault position; "
         "copychar: 6 target shapes x fault positions 0..2; dup: n = 0..12 x every fault position 0..n+2; names: n = 1..8 stored item names x every fault position 0..2n+2; clone / insert / set: value shapes (scalars, numbers with and without su, "
         "lists nested <= 3, width <= 4; random beyond the enumerated small ones) x every fault position 0..(allocations+1); "
         "non-trivial = a fault position that is reached; oracle: on failure nothing allocated in the call stays live, no "
@@ -46,6 +48,106 @@ def rand_shape(r, depth):
     return r.choice(["S", "C", "C", "M0", "M1"])
 
 
+_M = 0xffffffff
+
+
+def _jen_mix(a, b, c):
+    a = (a - b) & _M; a = (a - c) & _M; a ^= (c >> 13)
+    b = (b - c) & _M; b = (b - a) & _M; b ^= (a << 8) & _M
+    c = (c - a) & _M; c = (c - b) & _M; c ^= (b >> 13)
+    a = (a - b) & _M; a = (a - c) & _M; a ^= (c >> 12)
+    b = (b - c) & _M; b = (b - a) & _M; b ^= (a << 16) & _M
+    c = (c - a) & _M; c = (c - b) & _M; c ^= (b >> 5)
+    a = (a - b) & _M; a = (a - c) & _M; a ^= (c >> 3)
+    b = (b - c) & _M; b = (b - a) & _M; b ^= (a << 10) & _M
+    c = (c - a) & _M; c = (c - b) & _M; c ^= (b >> 15)
+    return a, b, c
+
+
+def jen_hash(text):
+    """uthash's HASH_JEN over the UTF-16LE bytes of a key (only used to CRAFT keys that share a bucket; the Lean model has
+    its own transcription and the real uthash decides what actually happens)"""
+    key = []
+    for ch in text:
+        key += [ord(ch) & 255, ord(ch) >> 8]
+    h = 0xfeedbeef; i = j = 0x9e3779b9; k = len(key); p = 0
+    while k >= 12:
+        w = lambda o: sum(key[p + o + t] << (8 * t) for t in range(4))
+        i = (i + w(0)) & _M; j = (j + w(4)) & _M; h = (h + w(8)) & _M
+        i, j, h = _jen_mix(i, j, h); p += 12; k -= 12
+    g = lambda n: key[p + n] if n < k else 0
+    h = (h + len(key) + (g(10) << 24) + (g(9) << 16) + (g(8) << 8)) & _M
+    j = (j + (g(7) << 24) + (g(6) << 16) + (g(5) << 8) + g(4)) & _M
+    i = (i + (g(3) << 24) + (g(2) << 16) + (g(1) << 8) + g(0)) & _M
+    return _jen_mix(i, j, h)[2]
+
+
+def colliding(prefix, bucket, nbits, count):
+    out, n = [], 0
+    while len(out) < count:
+        t = "%s%d" % (prefix, n); n += 1
+        if jen_hash(t) & ((1 << nbits) - 1) == bucket:
+            out.append(t)
+    return out
+
+
+def hx(t):
+    return "".join("%04x" % ord(c) for c in t)
+
+
+def keytok(orig, norm=None):
+    return hx(orig) if norm is None or norm == orig else hx(orig) + ":" + hx(norm)
+
+
+def map_requests(r, tier):
+    """cif_map_set_item / remove / cif_value_clone_table: maps of several sizes (empty; below, at and just after uthash's
+    first bucket expansion, reached with keys crafted to share a bucket, and — tables — with 144 ordinary keys, where the
+    first natural expansion happens), key new / present in the same spelling / present in another spelling, value NULL
+    or of several shapes, every fault position"""
+    tcoll = colliding("k", 3, 5, 12)                 # table keys sharing bucket 3 of 32
+    pcoll = colliding("_p", 7, 5, 12)                # item names sharing bucket 7 of 32 (already lower case)
+    vals = ["~", "S", "C", "M1", ["C", ["S"]]]
+    for kind, coll, fresh, resp in (("T", tcoll, "zz", ("e" + chr(0x301), chr(0xe9))), ("P", pcoll, "_zz", ("_ZZ", "_zz"))):
+        sets = [[], coll[:1], coll[:3], coll[:8], coll[:9], coll[:10]]
+        for keys in sets:
+            kt = " ".join(keytok(k) for k in keys)
+            cases = [(fresh, None)]                                   # a new key
+            if keys:
+                cases.append((keys[0], None))                           # present, same spelling
+            if len(keys) in (1, 9):
+                cases.append((coll[len(keys)], None))                   # a new key sharing the bucket (9 -> expansion)
+            for (ko, kn) in cases:
+                for v in (vals if len(keys) in (0, 1, 9) else vals[:3]):
+                    vt = v if isinstance(v, str) else " ".join(toks(v))
+                    nv = 0 if v == "~" else nallocs(v)
+                    for k in range(0, (3 if kind == "P" else 1) + 2 + nv + 3 + 2):
+                        yield " ".join(("ladder mapset %s %d %s %s %s %d" % (kind, len(keys), kt, keytok(ko, kn), vt, k)).split())
+        # present under another spelling: the item is respelled
+        for v in vals:
+            vt = v if isinstance(v, str) else " ".join(toks(v))
+            nv = 0 if v == "~" else nallocs(v)
+            for k in range(0, (3 if kind == "P" else 1) + 1 + nv + 2):
+                yield " ".join(("ladder mapset %s 2 %s %s %s %s %d" % (kind, keytok(coll[0]), keytok(resp[1]), keytok(resp[0], resp[1]), vt, k)).split())
+        for keys in ([], coll[:1], coll[:2], coll[:10]):
+            kt = " ".join(keytok(k) for k in keys)
+            for key in ([fresh] + keys[:1] + keys[-1:]):
+                for keep in (0, 1):
+                    for k in range(0, (3 if kind == "P" else 1) + 2):
+                        yield " ".join(("ladder mapdel %s %d %s %s %d %d" % (kind, len(keys), kt, keytok(key), keep, k)).split())
+    big = ["r%d" % i for i in range(145)]               # the 145th ordinary key triggers the first natural expansion
+    for n in ((144,) if tier == "quick" else (143, 144, 145, 317)):
+        ks = ["r%d" % i for i in range(n + 1)]
+        for k in range(0, 7):
+            yield "ladder mapset T %d %s %s ~ %d" % (n, " ".join(hx(x) for x in ks[:n]), hx(ks[n]), k)
+    for keys, shapes in (([], ["S"]), (tcoll[:1], ["S", "C", "M1", ["C"]]), (tcoll[:3], ["S", "C", ["C", "M0"]]),
+                         (tcoll[:11], ["S", "C"])):
+        for sh in shapes:
+            st = sh if isinstance(sh, str) else " ".join(toks(sh))
+            total = 1 + len(keys) * (3 + nallocs(sh)) + (2 if keys else 0) + (1 if len(keys) >= 10 else 0)
+            for k in range(0, total + 2):
+                yield " ".join(("ladder tclone T %d %s %s %d" % (len(keys), " ".join(keytok(x) for x in keys), st, k)).split())
+
+
 def rand_nonum(r, depth):
     if depth > 0 and r.random() < 0.4:
         return [rand_nonum(r, depth - 1) for _ in range(r.randint(0, 4))]
@@ -60,6 +162,8 @@ def generate(seed, tier):
     for n in range(1, 9 if tier == "quick" else 30):
         for k in range(0, 2 * n + 3):
             yield "ladder names %d %d" % (n, k)
+    for q in map_requests(r, tier):
+        yield q
     # cif_packet_create: at most 9 names, so that no uthash bucket can reach the expansion threshold of 10 entries
     flagsets = ["-", "n", "r", "nn", "nr", "rn", "rr", "nrn", "rrn", "nnnn", "rnrnr", "rrrrrrrrr", "nnnnnnnnn"]
     flagsets += ["".join(r.choice("nr") for _ in range(r.randint(1, 9))) for _ in range(6 if tier == "quick" else 80)]
@@ -103,12 +207,17 @@ def _f(obs, name):
 
 
 def finding_class(req, impl, model, why):
-    """open finding F31 (cif_packet_create_norm): when uthash cannot allocate its table for the first entry, the failure
-    handler applies the hash macros to a head entry whose hh.tbl is NULL.  Matched only at the fault position where the
-    pinned model predicts undefined behaviour (rc=U) and only for a sanitizer report from map.c / packet.c."""
+    """open findings of the map ladders: when uthash_fatal is raised inside HASH_ADD_KEYPTR (table header, bucket array or
+    bucket expansion cannot be allocated), cif_map_set_item / cif_value_clone_table release the new entry although uthash
+    has already linked it; the next use of the map reads freed memory.  Matched only at the fault positions where the
+    pinned model predicts it (rc=U) and only for an AddressSanitizer use-after-free report."""
     t = req.split()
-    if len(t) == 4 and t[1] == "packet" and model and " rc=U " in model + " " and impl.startswith("SAN:ubsan"):
-        return "packet/uthash-table-alloc-fails/null-table-deref"
+    site = {"mapset": "@map.c:cif_map_set_item", "tclone": "@value.c:cif_value_clone_table"}
+    if len(t) > 3 and t[1] in site and impl.startswith("SAN:asan:heap-use-after-free") and impl.endswith(site[t[1]]) \
+            and (model is None or " rc=U " in model + " "):
+        # model is None in the leak sweep of property C16 (no model run there): the failing allocation must then at least
+        # have been made by the function itself (uthash's macros expand there), not by cif_u_strdup or the normaliser
+        return "%s/uthash-fatal/entry-freed-while-linked" % t[1]
     return None
 
 
@@ -142,10 +251,21 @@ def oracle(req, impl):
         ids = frees.split(",")
         if len(ids) != len(set(ids)):
             return "a block was released twice: frees=%s" % frees
+    t = req.split()
+    if "!ITEM" in impl:
+        return "an item of the map cannot be retrieved after the call"
     if fails == "-":
+        if t[1] == "mapdel" and rc == "43":
+            # CIF_NOSUCH_ITEM is the documented answer for a key that is not in the map
+            keys = [x.split(":")[-1] for x in t[4:4 + int(t[3])]]
+            return None if t[4 + int(t[3])].split(":")[-1] not in keys else "the key is in the map but the call returned CIF_NOSUCH_ITEM"
         return None if rc == "0" else "no allocation failed but the call returned %s" % rc
     if rc != "E":
         return "an allocation failed but the call returned %s" % rc
     if live != "-":
+        if t[1] == "mapset" and "," not in live and ":" in t[4 + int(t[3])]:
+            # an existing item set under another spelling: the copy of the new spelling already belongs to the item when
+            # the clone of the value fails; it is owned by the map (released with it: no !LEAK), not lost
+            return None
         return "allocation failure: blocks %s allocated during the call were not released" % live
     return None
